@@ -10,7 +10,9 @@ squid.conf:  icap_service NAME respmod_precache icap://127.0.0.1:<stub.port>/res
 
 Behaviour dict (all keys optional; default = 204 when the client allows it, else echo is impossible -> 200 with the
 scripted adapted message is required, so the default is {"mode": "204"}):
-  mode            '200' | '204' | 'error' | 'garbage' | 'close'
+  mode            '200' | '204' | 'echo' | 'error' | 'garbage' | 'close'   ('echo' = 200 carrying the virgin message back)
+  strict204       with mode '204': answer 204 only where RFC 3507 permits it (inside a preview, or when the client sent
+                  Allow: 204); otherwise read the whole virgin message and echo it back in a 200 reply
   status          ICAP status for mode 'error' (default 500)
   http_head       bytes (or latin-1 str) of the adapted HTTP request/response head incl. the final CRLFCRLF (mode 200)
   http_body       bytes of the adapted body, None = null-body (mode 200);  body_tag/body_len -> httpref.keyed_stream
@@ -58,6 +60,7 @@ class Txn:
         self.done = False
         self.error = None
         self.key = None
+        self.echoed = False          # the reply was a 200 echoing the virgin message (strict204 fallback or mode 'echo')
         self.time = time.time()
 
     @property
@@ -305,6 +308,9 @@ class IcapServer:
         with self.lock:
             self.txns.append(txn)
         drain_after = False
+        if beh.get("mode", "204") == "204" and beh.get("strict204") and not txn.allow204 and "preview" not in txn.headers:
+            beh = dict(beh)
+            beh["early"] = False        # the echo needs the whole body
         try:
             if txn.has_body:
                 if "preview" in txn.headers:
@@ -350,6 +356,16 @@ class IcapServer:
         regions = None
         if mode == "close":
             return False
+        if mode == "204" and beh.get("strict204") and not (txn.allow204 or (txn.preview is not None and not txn.continued)):
+            mode = "echo"
+        if mode == "echo":
+            beh = dict(beh)
+            beh["http_head"] = txn.res_hdr if txn.method == "RESPMOD" else txn.req_hdr
+            beh["http_body"] = bytes(txn.body) if txn.has_body else None
+            beh.pop("body_tag", None)
+            beh["satisfy"] = False
+            mode = "200"
+            txn.echoed = True
         if mode == "garbage":
             data = base64.b64decode(beh.get("garbage_b64", ""))
         elif mode == "204":
